@@ -7,7 +7,7 @@ def run(tier, seed):
     env = {'UBSAN_OPTIONS': 'print_stacktrace=1'}
     # (a) history exploration with hostile argument classes
     exe = build_driver('c08_history.cpp', 'sanrec')
-    res = run_shards(exe, ['--pid=c09', '--hostile=1'] + (['--mdepth=8'] if tier == 'thorough' else ['--w1stride=8', '--mdepth=5']), tier=tier, seed=seed, timeout=3000, san=True, env=env)
+    res = run_shards(exe, ['--pid=c09', '--hostile=1'] + (['--mdepth=8', '--sdepth=3'] if tier == 'thorough' else ['--w1stride=8', '--mdepth=5', '--sdepth=2']), tier=tier, seed=seed, timeout=3000, san=True, env=env)
     rep.absorb(res)
     stderr = list(res.stderr_all)
     # (b) domain sweeps, parsers, buffer bounds, unvalidated-call probes
